@@ -285,6 +285,43 @@ def run_shard(ctx):
                                   {"label": label, "hex": data.hex(), "sequence": [vname, q],
                                    "first": str(base[q])[:300], "later": str(got)[:300]})
                     break
+        # a query that fails for a reason outside the bytes (the stack happens to be nearly exhausted) must not colour the
+        # answers the same object gives afterwards
+        if nontrivial and not big and (label.startswith("directed") or int(ch[:2], 16) % 6 == 0):
+            import sys
+            pt = f.Pickled.load(data)
+            lim = sys.getrecursionlimit()
+            depth = len(__import__("inspect").stack(0))
+            failed = 0
+            for margin in (25, 45, 70, 110):
+                sys.setrecursionlimit(depth + margin)
+                try:
+                    for q in ("properties", "unparse", "check_safety"):
+                        try:
+                            if q == "properties":
+                                pt.properties
+                            elif q == "unparse":
+                                pt.ast
+                            else:
+                                analysis.check_safety(pt)
+                        except RecursionError:
+                            failed += 1
+                        except Exception:
+                            pass
+                finally:
+                    sys.setrecursionlimit(lim)
+            if failed:
+                agg.count("queries_failed_on_a_short_stack", failed)
+                for q in ("check_safety", "unparse", "properties", "unsafe_imports", "to_dict"):
+                    got = answer(f, analysis, tracing, pt, q)
+                    agg.count("answers_compared")
+                    if got != base[q]:
+                        agg.violation(f"transient-failure-remembered:{q}",
+                                      f"after queries on this object failed with RecursionError on a nearly exhausted stack, '{q}' "
+                                      f"answers differently from a fresh object, with the whole stack available",
+                                      {"label": label, "hex": data.hex()[:3000], "sequence": ["short-stack", q],
+                                       "first": str(base[q])[:300], "later": str(got)[:300]})
+                        break
         rng = asm.rng_for(ctx.seed, "c13seq" + ch)
         seqs = []
         if big:
